@@ -30,6 +30,10 @@ def check(rep):
         return
     hs = muxgen.exhaustive_small()
     hs += [muxgen.random_history(rng, bad=0.02) for _ in range(300 if rep.tier == "quick" else 6000)]
+    # parameter sets at the top of their 16-bit length range (the avcC box and every container around it must still add up), empty PPS
+    for n, k in ((65535, 65535), (65534, 1), (65533, 0), (4, 65535), (4, 65534)):
+        hs.append({"base": 0, "cfg": muxgen.DEFAULT_CFG, "ops": [{"add": muxgen.tc("avc", sps="67" * n, pps="68" * k)}, {"add": muxgen.tc("aac")},
+                                                                  {"w": [1, 1000, 0, True, "aabb"]}, {"w": [2, 1024, 0, True, "cc"]}, {"w": [1, 1000, 0, False, ""]}]})
     muxcheck.run_property(rep, "C02", CONE, hs, [muxcheck.oracle_c02], modules=["C02", "C02Bytes"], rule=
                           "same history space as C01 (shape-exhaustive small + seeded random, debug and release); the real output is judged by the "
                           "independent parser/validator iso_check_file: top-level tiling, container sizes, per-track table totals, stss order, chunk "
